@@ -155,6 +155,7 @@ def C06(ctx):
     k1_rules(ctx, "C06")
     reclaim.reclaim_after_unlink(ctx, FILES["C06"])
     queues.kfifo(ctx)
+    queues.kfifo_swing_expected(ctx)
     harris.use_after_move(ctx, FILES["C06"])
     harris.guard_deref_after_release(ctx, FILES["C06"])
     harris.expected_protected_until_cas(ctx, FILES["C06"])
@@ -318,12 +319,14 @@ def C16(ctx):
     progress.rules(ctx)
     vyukov.reader_validation(ctx)
     queues.swing_cas_expected(ctx)
+    queues.kfifo_swing_expected(ctx)
     # operations documented lock-free must not be routed to a blocking sibling / must help instead of waiting
-    ctx.only = ("K11.", "VHM.reader-validation", "Q.swing-expected", "KF.field-fit", "KF.segment-step", "VBQ.variant-dispatch", "STAMP.help-pending-push")
+    ctx.only = ("K11.", "VHM.reader-validation", "Q.swing-expected", "KF.field-fit", "KF.segment-step", "VBQ.variant-dispatch", "VBQ.weak-returns-when-behind",
+                "STAMP.help-pending-push")
     queues.vyukov_bounded(ctx)
     schemes.stamp_rules(ctx)
     # of the k-FIFO rules only the index-width rule is a progress condition (an index that does not fit its field makes push/pop spin forever)
-    ctx.only_skip = ("KF.aba", "KF.protocol", "OWN.", "KF.region-predicate", "KF.tail-advance", "KF.scan-complete", "KF.tail-never-onto-head")
+    ctx.only_skip = ("KF.aba", "KF.protocol", "OWN.", "KF.region-predicate", "KF.tail-advance", "KF.scan-complete", "KF.tail-never-onto-head", "KF.region-snapshot")
     queues.kfifo(ctx)
     return ("Decides: no wait construct (spin on a lock bit / flag / pending write, mutex acquisition) is reachable in the resolved call graph from any "
             "operation documented lock-free or wait-free, any guard operation of any reclaimer, seqlock::load with more than one slot or left_right::read; "
